@@ -107,14 +107,28 @@ def _mutate(r, base: Dict[str, Any]) -> List[Dict[str, Any]]:
             a, b = b, a
         path = [r.choice(["gel", r.choice(KEYS)])] + [r.choice(KEYS) for _ in range(r.randint(0, 1))]
         edits.append({"path": path, "kind": "twin", "base_value": a, "value": b})
+    if r.chance(0.15):
+        # the in-memory base holds ONE sub-object under two keys (a payload assembled from shared pieces); only one of them changes
+        k1, k2 = r.sample(KEYS[:6], 2)
+        edits.append({"path": [k1], "kind": "alias", "of": [k2], "shared": {"k": 1, "n": {"m": 2}}})
+        edits.append({"path": [k1, r.choice(["k", "n"])], "kind": "set", "value": r.choice([2, {"m": 3}, "x"])})
     for _ in range(r.randint(0, 6)):
         edits.append({"path": [r.choice(["gel", "store", r.choice(KEYS)])] + [r.choice(KEYS + ["nodes", "edges"]) for _ in range(r.randint(0, 2))],
                       "kind": r.choice(["set", "set", "del"]), "value": _val(r)})
     return edits
 
 
+def _plain(o: Any) -> Any:
+    """A copy that shares nothing, not even what the original shared with itself."""
+    if isinstance(o, dict):
+        return {k: _plain(v) for k, v in o.items()}
+    if isinstance(o, list):
+        return [_plain(v) for v in o]
+    return o
+
+
 def _apply_edits(obj: Dict[str, Any], edits: List[Dict[str, Any]], inplace: bool = False) -> Dict[str, Any]:
-    out = obj if inplace else copy.deepcopy(obj)
+    out = obj if inplace else _plain(obj)
     for e in edits:
         cur = out
         ok = True
@@ -126,6 +140,8 @@ def _apply_edits(obj: Dict[str, Any], edits: List[Dict[str, Any]], inplace: bool
                 cur[k] = {}
             cur = cur[k]
         if not ok:
+            continue
+        if e["kind"] == "alias":
             continue
         if e["kind"] in ("set", "twin"):
             cur[e["path"][-1]] = copy.deepcopy(e["value"])
@@ -155,6 +171,11 @@ def execute(p: Dict[str, Any]) -> Dict[str, Any]:
             viol.append({"cls": "delta", "sig": sig, "detail": detail})
 
     base = _apply_edits(p["base"], [{"path": e["path"], "kind": "set", "value": e["base_value"]} for e in p["edits"] if e["kind"] == "twin"])
+    for e in p["edits"]:
+        if e["kind"] == "alias":
+            shared = copy.deepcopy(e["shared"])
+            base[e["path"][0]] = shared
+            base[e["of"][0]] = shared      # the same object under a second key
     cur = _apply_edits(base, p["edits"])
     cur["version_etag"] = p["cur_version"]
     # ---- codec law ----
